@@ -46,6 +46,14 @@ def cfgGzipHello : Cfg CD :=
   { newDecoder := some (.one (.gzip (Gz.new gzipO))), enforce := true, decodeDefault := true,
     chunked := false, head := false, fuel := 1000 }
 
+/-- `gzipHello` in three chunks (10, 10 — with a chunk extension —, 8 bytes), then a trailer -/
+def chunkedGzipHello : Bytes :=
+  lit "a\r\n" ++ gzipHello.take 10 ++ crlf ++ lit "A;x=1\r\n" ++ (gzipHello.drop 10).take 10 ++ crlf ++
+  lit "08\r\n" ++ gzipHello.drop 20 ++ crlf ++ lit "0\r\nX-T: 1\r\n\r\n"
+
+def wireChunkedGzipHello : Bytes :=
+  lit "HTTP/1.1 200 OK\r\nContent-Encoding: gzip\r\nTransfer-Encoding: chunked\r\n\r\n" ++ chunkedGzipHello
+
 def out {α β} (x : Except Exc α × β) : Option α := match x.1 with | .ok a => some a | .error _ => none
 def err {α β} (x : Except Exc α × β) : Option Exc := match x.1 with | .ok _ => none | .error e => some e
 
